@@ -194,6 +194,46 @@ def _tainted_names(f: Func, sources: set[str]) -> tuple[set[str], dict]:
     return tainted, why
 
 
+class MapStore:
+    """one store into a local mapping: D[K] = V, D[K] += V, D.setdefault(K, init).extend/append/update(V)"""
+    __slots__ = ("node", "map", "key", "value", "members", "merging", "in_loop", "form")
+
+    def __init__(self, node, map_, key, value, members, merging, in_loop, form):
+        self.node, self.map, self.key, self.value, self.members, self.merging, self.in_loop, self.form = \
+            node, map_, key, value, members, merging, in_loop, form
+
+    @property
+    def lineno(self):
+        return self.node.lineno
+
+
+def map_stores(f: Func, pm=None) -> list[MapStore]:
+    pm = pm or parents_map(f.node)
+    from ..astutil import guard_facts
+    out = []
+    for n in walk_own(f.node):
+        in_loop = any(isinstance(a, (ast.For, ast.While)) for a in ancestors(n, pm))
+        if isinstance(n, ast.Assign) and len(n.targets) == 1 and isinstance(n.targets[0], ast.Subscript) and isinstance(n.targets[0].value, ast.Name):
+            d, k, v = n.targets[0].value.id, n.targets[0].slice, n.value
+            reads_old = any((isinstance(x, ast.Subscript) and isinstance(x.value, ast.Name) and x.value.id == d and norm(x.slice) == norm(k))
+                            or (isinstance(x, ast.Call) and isinstance(x.func, ast.Attribute) and x.func.attr in ("get", "pop", "setdefault")
+                                and isinstance(x.func.value, ast.Name) and x.func.value.id == d and x.args and norm(x.args[0]) == norm(k))
+                            for x in ast.walk(v))
+            guarded = any(at == f"{norm(k)} in {d}" and pol is False for at, pol in guard_facts(n, pm))
+            callees = {c.func.id for c in ast.walk(v) if isinstance(c, ast.Call) and isinstance(c.func, ast.Name)}
+            members = {x for x in names_in(v) if x != d and x not in names_in(k) and x not in callees} or names_in(v) - {d}
+            out.append(MapStore(n, d, k, v, members, reads_old or guarded, in_loop,
+                                "merge" if reads_old else ("guarded by 'not in'" if guarded else "overwrite")))
+        elif isinstance(n, ast.AugAssign) and isinstance(n.target, ast.Subscript) and isinstance(n.target.value, ast.Name):
+            out.append(MapStore(n, n.target.value.id, n.target.slice, n.value, names_in(n.value), True, in_loop, "augmented"))
+        elif isinstance(n, ast.Call) and isinstance(n.func, ast.Attribute) and n.func.attr in ("extend", "append", "update", "add") \
+                and isinstance(n.func.value, ast.Call) and isinstance(n.func.value.func, ast.Attribute) and n.func.value.func.attr == "setdefault" \
+                and isinstance(n.func.value.func.value, ast.Name) and n.func.value.args and n.args:
+            sd = n.func.value
+            out.append(MapStore(n, sd.func.value.id, sd.args[0], n.args[0], names_in(n.args[0]), True, in_loop, "setdefault"))
+    return out
+
+
 def _cohort_anchors(ctx):
     """(function, label->blocks map name, key function name, stores into the merged-cohort map) found structurally"""
     f = ctx.prog.func("core.find_group_cohorts")
@@ -207,9 +247,7 @@ def _cohort_anchors(ctx):
     sc = ctx.resolver.scope(f)
     empties = {n for n, b in sc.bind.items() if any(k == "assign" and isinstance(v, ast.Dict) and not v.keys for k, v in b)}
     pm = parents_map(f.node)
-    stores = [n for n in walk_own(f.node) if isinstance(n, ast.Assign) and len(n.targets) == 1 and isinstance(n.targets[0], ast.Subscript)
-              and isinstance(n.targets[0].value, ast.Name) and n.targets[0].value.id in empties
-              and any(isinstance(a, ast.For) for a in ancestors(n, pm))]
+    stores = [m for m in map_stores(f, pm) if m.map in empties and m.in_loop]
     if not stores:
         raise AnalysisError("find_group_cohorts: no store into the merged-cohort map found (anchor vanished)")
     return f, lc, keyfn, stores
@@ -224,7 +262,7 @@ def rule_order(ctx) -> RuleResult:
     unordered_keys = []
     for n in mstores:
         # does the key's closure contain a set(...) that is not wrapped in a sanitizer?
-        unordered_keys.append((n, _has_unsanitized_set(ctx, fgc, n.targets[0].slice)))
+        unordered_keys.append((n, _has_unsanitized_set(ctx, fgc, n.key)))
     source_unordered = any(u for _, u in unordered_keys)
     res.inst(f"find_group_cohorts: merged cohort block sets are {'built from an unordered set' if source_unordered else 'ordered at creation'}",
              "source")
@@ -302,8 +340,8 @@ def rule_cover(ctx) -> RuleResult:
     f, LC, KEYFN, stores = _cohort_anchors(ctx)
     scope = ctx.resolver.scope(f)
     for st in stores:
-        key, val = st.targets[0].slice, st.value
-        vname = val.id if isinstance(val, ast.Name) else None
+        key, val = st.key, st.value
+        vname = val.id if isinstance(val, ast.Name) else (sorted(st.members)[0] if len(st.members) == 1 else None)
         ok = False
         seen: set[str] = set()
 
@@ -324,10 +362,10 @@ def rule_cover(ctx) -> RuleResult:
                             walk(node)
 
         walk(key)
-        res.inst(f"find_group_cohorts: {norm(st.targets[0].value)}[{norm(key)}] = {norm(val)}: key derived from {LC}[m] for every m in {vname}: {ok}",
+        res.inst(f"find_group_cohorts: {st.map}[{norm(key)}] <- {norm(val)[:50]} ({st.form}): key derived from {LC}[m] for every m in {vname}: {ok}",
                  f"merged|{norm(key)}")
         if not ok:
-            res.report(f"core.find_group_cohorts|cohort-blocks-not-union|{norm(key)[:30]}", f.where(st), f.qualname,
+            res.report(f"core.find_group_cohorts|cohort-blocks-not-union|{norm(key)[:30]}", f.where(st.node), f.qualname,
                        f"the block set {norm(key)} stored for cohort {norm(val)} is not computed from {LC}[m] for every member m: a label "
                        "merged by containment (>= 0.75, not 1.0) may occupy blocks outside that set, which are then silently dropped from "
                        "its cohort's tree")
@@ -529,4 +567,68 @@ def rule_contig(ctx) -> RuleResult:
                 if uses_parts and rev:
                     res.report("dask_array_ops.get_parts|key-order", gp.where(a), gp.qualname,
                                f"output keys '{txt[:60]}' enumerate the parts in a different axis order than product(*{parts_e.id})")
+    return res
+
+
+# ---------------------------------------------------------------------------------------------
+# R-LOOPSTORE (C09, C19): an accumulator dict filled in a loop never silently overwrites an entry.
+# `d[K] = V` inside a loop is an *assignment per iteration* only if K is injective in the iteration (it contains the loop variable).
+# When K is an aggregate of the iteration's data (a set / union / sum of several members' values), two iterations can compute the same
+# K; the second store then drops the first entry.  In find_group_cohorts that loses a whole cohort of labels.
+_AGGREGATORS = {"set", "frozenset", "sum", "len", "min", "max", "sorted", "itertools.chain", "chain", "tlz.concat", "concat", "np.unique",
+                "_unique", "np.union1d", "reduce", "functools.reduce", "hash", "tokenize", "any", "all", "math.prod", "np.sum", "np.concatenate",
+                "itertools.chain.from_iterable", "chain.from_iterable", "tlz.unique", "np.bitwise_or.reduce"}
+
+
+def _enclosing_loop_vars(node, pm) -> set[str]:
+    out = set()
+    for a in ancestors(node, pm):
+        if isinstance(a, ast.For):
+            out |= names_in(a.target)
+    return out
+
+
+def rule_loopstore(ctx) -> RuleResult:
+    res = RuleResult("R-LOOPSTORE", "an accumulator dict filled in a loop is keyed injectively or merges on a repeated key", min_instances=2)
+    from .codes import _local_closure
+    for q, f in sorted(ctx.prog.funcs.items()):
+        if f.is_overload or isinstance(f.node, ast.Lambda) or f.unit.name not in ("core", "dask_array_ops", "aggregations", "cohorts", "lib"):
+            continue
+        sc = ctx.resolver.scope(f)
+        accs = {n for n, b in sc.bind.items()
+                if any(k == "assign" and ((isinstance(v, ast.Dict) and not v.keys) or (isinstance(v, ast.Call) and norm(v.func) in ("dict", "defaultdict", "collections.defaultdict", "OrderedDict") and not v.args))
+                       for k, v in b)}
+        if not accs:
+            continue
+        pm = parents_map(f.node)
+        for m in map_stores(f, pm):
+            if m.map not in accs or not m.in_loop or isinstance(m.key, ast.Slice):
+                continue
+            loopvars = _enclosing_loop_vars(m.node, pm)
+            key_names = names_in(m.key)
+            clo = _local_closure(f, m.key)
+            direct = bool(key_names & loopvars)
+            fmt = any(isinstance(e, ast.JoinedStr) and names_in(e) & loopvars for e in clo)
+            aggs = sorted({norm(c.func) for e in clo for c in ast.walk(e) if isinstance(c, ast.Call) and norm(c.func) in _AGGREGATORS})
+            if not key_names:
+                verdict = "constant slot (overwritten on purpose)"
+            elif direct:
+                verdict = f"key contains the loop variable {sorted(key_names & loopvars)}: injective"
+            elif fmt and not aggs:
+                verdict = "key is a string formatted from the loop variable: injective"
+            elif m.merging:
+                verdict = f"repeated keys are merged ({m.form})"
+            elif aggs:
+                verdict = f"key is an aggregate ({', '.join(aggs)}) of the iteration's data and the store overwrites"
+            else:
+                verdict = "UNDECIDED (key derived from the iteration by an unrecognised function)"
+            res.inst(f"{q}: {m.map}[{norm(m.key)[:30]}] <- {norm(m.value)[:30]}: {verdict}", f"{q}|{m.map}|{norm(m.key)[:30]}")
+            if verdict.startswith("key is an aggregate"):
+                res.report(f"{q}|overwriting-store|{m.map}", f.where(m.node), q,
+                           f"'{norm(m.node)[:70]}' runs once per iteration of the loop over {sorted(loopvars)}, but its key is computed by "
+                           f"{', '.join(aggs)} from the iteration's data, so two iterations can produce the same key and the later store silently drops the "
+                           "earlier entry (in find_group_cohorts: a whole cohort of labels vanishes; the trailing assert turns it into an AssertionError, "
+                           "python -O into silently missing groups)")
+            elif verdict.startswith("UNDECIDED"):
+                res.notes.append(f"UNDECIDED {q}: {norm(m.node)[:80]}")
     return res
